@@ -105,11 +105,11 @@ class Scheduler:
             i = 0
             cids = sorted(programs)
             while len(self.finished) < len(programs) and steps < max_steps:
-                cid = sched[i % len(sched)] if sched else cids[i % len(cids)]
+                # the given schedule once, then round-robin over everybody (fair: a holder that
+                # the schedule happens not to mention must still get to release)
+                cid = sched[i] if i < len(sched) else cids[(i - len(sched)) % len(cids)]
                 i += 1
                 if cid in self.finished:
-                    if all(c in self.finished for c in set(sched)) and sched:
-                        sched = cids
                     continue
                 self.grant(cid)
                 steps += 1
